@@ -1,3 +1,4 @@
+import os
 # Contract language: parser for `//@` contract files and for the Go-like expressions inside them.
 import re
 
@@ -272,6 +273,8 @@ def parse_spec_text(text, fname, sf=None):
                 sf.contracts.append(cur)
             elif word == 'extern':
                 cur = Contract('extern', rest.strip(), fname, ln)
+                if cur.key in sf.externs:
+                    sf.__dict__.setdefault('extern_redeclared', []).append((cur.key, sf.externs[cur.key], cur))
                 sf.externs[cur.key] = cur
             elif word == 'property':
                 if cur is not None:
@@ -351,6 +354,11 @@ def load_spec_files(paths):
     for p in paths:
         with open(p) as f:
             parse_spec_text(f.read(), p, sf)
+    # an assumed contract declared twice: the later declaration is the one in force; say so when the two differ
+    for key, a, b in getattr(sf, 'extern_redeclared', []):
+        ta, tb = [(c.kind, c.text.strip()) for c in a.clauses], [(c.kind, c.text.strip()) for c in b.clauses]
+        if ta != tb:
+            sf.assumption_notes.append('extern %s is declared twice with different clauses (%s:%s and %s:%s): the later one is in force' % (key, os.path.basename(a.file), a.line, os.path.basename(b.file), b.line))
     for name, p in sf.pures.items():
         if p['body'] is not None:
             acc = set()
